@@ -182,3 +182,106 @@ def _tuple_eq(got, want):
     if len(got) != len(want):
         return z3.BoolVal(False)
     return z3.And(*[lift(g) == lift(w) for g, w in zip(got, want)]) if got else z3.BoolVal(True)
+
+
+# --------------------------------------------------------------------------------------
+@family("shapes/Chain", ["C08", "C13", "C03"])
+def chain_ctor(ctx):
+    """Chain.__init__ (real utils.check_shapes_match / merge_cond_shapes) for 2 and 3 children with shapes and condition shapes of
+    any rank: accepted iff all shapes agree and the condition shapes of the conditional children agree; declared shape / cond_shape;
+    indexing; merge_chains flattens nested chains in order (function preserved by the fold contract in combinators/Chain)."""
+    props = ["C08", "C13", "C03"]
+    q = "flowjax.bijections.chain.Chain"
+    for k in (2, 3):
+        shapes = [Seq(f"s{i}") for i in range(k)]
+        for cpat in sorted({tuple(bool((m >> i) & 1) for i in range(k)) for m in range(2 ** k)}):
+            it = ctx.new_interp()
+            it.global_overrides["flowjax.bijections.chain"] = {"unwrap": lambda t: t}
+            cls = it.repo_class(q)
+            conds = [Seq(f"c{i}") if cpat[i] else None for i in range(k)]
+            kids = [AbsBij(z3.Const(f"b{i}", BIJ), shape=SymTuple(shapes[i]), cond_shape=(SymTuple(conds[i]) if conds[i] is not None else None)) for i in range(k)]
+            tag = f"k={k},cond={''.join('c' if c else 'u' for c in cpat)}"
+            paths = it.explore(lambda: cls(list(kids)))
+            ok, bad = by_outcome(paths)
+            same_shape = z3.And(*[shapes[i] == shapes[0] for i in range(1, k)])
+            cs = [c for c in conds if c is not None]
+            same_cond = z3.And(*[c == cs[0] for c in cs[1:]]) if len(cs) > 1 else z3.BoolVal(True)
+            rp = dict(kind="shapes", cls="Chain", vars={})
+            ctx.oblige(f"C08/Chain.__init__[{tag}]/struct/has_success_path", len(ok) >= 1, [], props, kind="struct", fn=q + ".__init__")
+            for i, p in enumerate(ok):
+                o = p.value
+                ctx.oblige(f"C13/Chain.__init__[{tag}]/post/accepted_only_if_compatible#{i}", z3.And(same_shape, same_cond), p.cond, props, fn=q + ".__init__", replay=rp)
+                ctx.oblige(f"C08/Chain.__init__[{tag}]/post/shape#{i}", SymTuple.of(o.shape).s == shapes[0], p.cond, props, fn=q + ".__init__", replay=rp)
+                if cs:
+                    ctx.oblige(f"C08/Chain.__init__[{tag}]/post/cond_shape#{i}", z3.BoolVal(o.cond_shape is not None) if o.cond_shape is None else SymTuple.of(o.cond_shape).s == cs[0], p.cond, props, fn=q + ".__init__", replay=rp,
+                               note="conditional iff a child is conditional (also for scalar conditions)")
+                else:
+                    ctx.oblige(f"C08/Chain.__init__[{tag}]/post/unconditional#{i}", o.cond_shape is None, [], props, kind="struct", fn=q + ".__init__", replay=rp)
+                okb = isinstance(o.bijections, tuple) and len(o.bijections) == k and all(a is b_ for a, b_ in zip(o.bijections, kids))
+                ctx.oblige(f"C08/Chain.__init__[{tag}]/post/children_kept_in_order#{i}", bool(okb), [], props, kind="struct", fn=q + ".__init__", replay=rp)
+            for i, p in enumerate(bad):
+                ctx.oblige(f"C13/Chain.__init__[{tag}]/post/raises_only_if_incompatible#{i}", z3.Not(z3.And(same_shape, same_cond)), p.cond, props, fn=q + ".__init__", replay=rp, note=f"raises {p.value.exc}")
+    # ---- indexing and merge_chains on built chains (children abstract, shapes equal)
+    it = ctx.new_interp()
+    it.global_overrides["flowjax.bijections.chain"] = {"unwrap": lambda t: t}
+    cls = it.repo_class(q)
+    s = SymTuple(Seq("s"))
+    mk = lambda name: AbsBij(z3.Const(name, BIJ), shape=s, cond_shape=None)  # noqa: E731
+    a, b, c, d, e = (mk(n_) for n_ in "abcde")
+
+    def build(parts):
+        ps = [p for p in it.explore(lambda: cls(list(parts))) if p.outcome == "return"]
+        return ps[0].value if len(ps) == 1 else None
+
+    inner1, inner2 = build([b, c]), None
+    if inner1 is not None:
+        inner2 = build([inner1, d])
+    outer = build([a, inner2, e]) if inner2 is not None else None
+    ctx.oblige("C08/Chain.merge_chains/struct/nested_chain_built", outer is not None, [], props, kind="struct", fn=q + ".merge_chains")
+    if outer is not None:
+        pm = [p for p in it.explore(lambda: cls.lookup("merge_chains")(outer)) if p.outcome == "return"]
+        okm = len(pm) == 1 and len(pm[0].value.bijections) == 5 and all(x is y for x, y in zip(pm[0].value.bijections, (a, b, c, d, e)))
+        ctx.oblige("C08/Chain.merge_chains/post/flattens_nested_chains_in_order", bool(okm), [], props, kind="struct", fn=q + ".merge_chains", replay=dict(kind="combinators", vars={}),
+                   note="[a, [[b, c], d], e] -> [a, b, c, d, e]: the same left-to-right fold (combinators/Chain), hence the same function and log-det")
+        flat = build([a, b, c])
+        if flat is not None:
+            pg = it.explore(lambda: cls.lookup("__getitem__")(flat, 1))
+            ctx.oblige("C08/Chain.__getitem__/post/integer_index_is_the_child", len(pg) == 1 and pg[0].outcome == "return" and pg[0].value is b, [], props, kind="struct", fn=q + ".__getitem__")
+            pg = it.explore(lambda: cls.lookup("__getitem__")(flat, slice(1, None)))
+            oks = len(pg) == 1 and pg[0].outcome == "return" and isinstance(pg[0].value, Obj) and tuple(pg[0].value.bijections) == (b, c)
+            ctx.oblige("C08/Chain.__getitem__/post/slice_is_the_chain_of_the_slice", bool(oks), [], props, kind="struct", fn=q + ".__getitem__")
+
+
+@family("shapes/Partial.__check_init__", ["C13", "C08"])
+def partial_check(ctx):
+    """Partial rejects a child whose shape is not the shape of x[idxs] (numpy's indexing result shape, T3: uninterpreted)"""
+    it = ctx.interp
+    props = ["C13", "C08"]
+    q = "flowjax.bijections.utils.Partial"
+    cls = it.repo_class(q)
+    sub, child = Seq("shape_of_x_at_idxs"), Seq("child_shape")
+
+    class Zeros:
+        def __init__(self, shape):
+            self.shape_arg = shape
+
+        def __getitem__(self, idx):
+            class R:
+                shape = SymTuple(sub)
+            self.idx = idx
+            return R()
+
+    made = []
+    it.lib.overrides["jax.numpy.zeros"] = lambda shape, **k: made.append(Zeros(shape)) or made[-1]
+    shp = SymTuple(Seq("shape"))
+    o = Obj(cls, bijection=AbsBij(z3.Const("b", BIJ), shape=SymTuple(child)), idxs="idxs", shape=shp)
+    paths = it.explore(lambda: cls.lookup("__check_init__")(o))
+    ok, bad = by_outcome(paths)
+    ctx.oblige("C13/Partial.__check_init__/struct/both_outcomes", len(ok) >= 1 and len(bad) >= 1, [], props, kind="struct", fn=q + ".__check_init__")
+    if not (len(made) >= 1 and all(z.shape_arg is shp and getattr(z, "idx", None) == "idxs" for z in made)):
+        from fjvc.interp import Untranslatable
+        raise Untranslatable("Partial.__check_init__ computes the indexed shape in a way the contract does not model")
+    for i, p in enumerate(ok):
+        ctx.oblige(f"C13/Partial.__check_init__/post/accepted_only_if_child_shape_is_the_indexed_shape#{i}", child == sub, p.cond, props, fn=q + ".__check_init__", replay=dict(kind="shapes", cls="Partial", vars={}))
+    for i, p in enumerate(bad):
+        ctx.oblige(f"C13/Partial.__check_init__/post/raises_only_on_mismatch#{i}", z3.And(child != sub, z3.BoolVal(p.value.exc == "ValueError")), p.cond, props, fn=q + ".__check_init__", replay=dict(kind="shapes", cls="Partial", vars={}))
